@@ -329,7 +329,14 @@ fn check_packaged(root: &Path, w: &Workspace, inv: &Invocation, node: usize) -> 
         let got = std::fs::read(out.join("bin/build")).map_err(|e| Fail::new("C15:bin-build-missing", format!("{id}: {e}")))?;
         ensure!(got == main, "C15:bin-build-not-the-main-binary", "{id}: bin/build is not byte-identical to target/{TRIPLE}/{profile}/{}", r.pkg);
         let md = std::fs::symlink_metadata(out.join("bin/detect")).map_err(|e| Fail::new("C15:bin-detect-missing", format!("{id}: {e}")))?;
-        ensure!(md.file_type().is_symlink() && std::fs::read_link(out.join("bin/detect")).ok() == Some(PathBuf::from("build")), "C15:bin-detect-not-a-link-to-build", "{id}");
+        // "bin/detect as a link to it": a symbolic link that resolves to bin/build (however spelled), or a hard link
+        let resolves = std::fs::canonicalize(out.join("bin/detect")).ok() == std::fs::canonicalize(out.join("bin/build")).ok() && md.file_type().is_symlink();
+        let hard = {
+            use std::os::unix::fs::MetadataExt;
+            let b = std::fs::symlink_metadata(out.join("bin/build")).map_err(|e| Fail::new("C15:bin-build-missing", format!("{id}: {e}")))?;
+            md.file_type().is_file() && md.ino() == b.ino() && md.dev() == b.dev()
+        };
+        ensure!(resolves || hard, "C15:bin-detect-not-a-link-to-build", "{id}");
         expected.extend(["bin", "bin/build", "bin/detect"].iter().map(|s| s.to_string()));
         if !r.extra_bins.is_empty() {
             expected.insert(".libcnb-cargo".into());
@@ -342,8 +349,12 @@ fn check_packaged(root: &Path, w: &Workspace, inv: &Invocation, node: usize) -> 
             ensure!(got != main, "harness:binaries-indistinguishable", "{b}");
             expected.insert(format!(".libcnb-cargo/additional-bin/{b}"));
         }
-        let pkg = std::fs::read_to_string(out.join("package.toml")).unwrap_or_default();
-        ensure!(pkg == "[buildpack]\nuri = \".\"\n", "C15:package-toml-of-libcnb-buildpack", "{id}: {pkg:?}");
+        // a package descriptor for a single buildpack: buildpack.uri = ".", no dependencies (decoded, not byte-compared)
+        let pkg = std::fs::read_to_string(out.join("package.toml")).map_err(|e| Fail::new("C15:package-toml-missing", format!("{id}: {e}")))?;
+        let ptv = read_toml_independent(&pkg).map_err(|e| Fail::new("C15:package-toml-invalid", e))?;
+        let uri_ok = ptv.get("buildpack").and_then(|b| b.get("uri")).and_then(TV::as_str) == Some(".");
+        let no_deps = ptv.get("dependencies").and_then(TV::as_array).map(|a| a.is_empty()).unwrap_or(true);
+        ensure!(uri_ok && no_deps, "C15:package-toml-of-libcnb-buildpack", "{id}: {pkg:?}");
     } else {
         let c = &w.composites[node - w.rust.len()];
         let text = std::fs::read_to_string(out.join("package.toml")).map_err(|e| Fail::new("C15:package-toml-missing", format!("{id}: {e}")))?;
@@ -362,7 +373,15 @@ fn check_packaged(root: &Path, w: &Workspace, inv: &Invocation, node: usize) -> 
             ensure!(got == want, "C15:composite-dependency-wrong", "{id}: dependency written as {got:?}, expected {want:?}");
         }
     }
-    let got_entries: BTreeSet<String> = snap.keys().map(|k| fsutil::show_path(k)).collect();
+    // the listed entries and nothing stale; directories that are empty do not count as "something else"
+    let got_entries: BTreeSet<String> = snap
+        .iter()
+        .filter(|(k, e)| {
+            let name = fsutil::show_path(k);
+            expected.contains(&name) || !(matches!(e.kind, Kind::Dir) && !snap.keys().any(|o| o.len() > k.len() && o.starts_with(k) && o[k.len()] == b'/'))
+        })
+        .map(|(k, _)| fsutil::show_path(k))
+        .collect();
     if got_entries != expected {
         let extra: Vec<&String> = got_entries.difference(&expected).collect();
         let missing: Vec<&String> = expected.difference(&got_entries).collect();
@@ -506,13 +525,10 @@ fn check_workspace(scratch: &Path, w: &Workspace, invs: &[Invocation], idx: usiz
                 let before = fsutil::snapshot(&package_dir_of(&root, &inv));
                 let o = invoke(&root, w, &inv);
                 let after = fsutil::snapshot(&package_dir_of(&root, &inv));
-                let chk = (|| -> Check {
-                    ensure!(o.code != Some(0), "C15:success-from-unrelated-directory", "exit 0 from a directory that is neither the workspace root nor a buildpack");
-                    ensure!(o.stdout.trim().is_empty(), "C15:stdout-from-unrelated-directory", "{:?}", o.stdout);
-                    let wrote_bp = after.keys().any(|k| !before.contains_key(k) && fsutil::show_path(k).ends_with("buildpack.toml"));
-                    ensure!(!wrote_bp, "C15:buildpack-written-from-unrelated-directory", "a buildpack directory was written");
-                    Ok(())
-                })();
+                // the statement quantifies over the workspace root and buildpack directories only: what happens elsewhere is
+                // not judged beyond "the tool is not killed by a signal"
+                let _ = (&before, &after);
+                let chk: Check = if o.code.is_none() { Err(Fail::new("C15:killed-by-signal", o.stderr.clone())) } else { Ok(()) };
                 chk.map_err(|f| (f, case(&inv)))?;
                 continue;
             }
@@ -585,7 +601,7 @@ fn check_workspace(scratch: &Path, w: &Workspace, invs: &[Invocation], idx: usiz
 }
 
 pub fn run(ctx: &Ctx) {
-    ctx.set_rule("generated Cargo workspaces (1-3 dependency-free libcnb.rs buildpack crates with 1-3 binary targets whose main functions print distinct tokens, 0-3 composite buildpacks whose package.toml mixes libcnb:, relative-path and docker dependencies forming a DAG, 0-2 non-libcnb buildpack directories, ids with one or two '/' where one id is a '/'-prefix of another and two ids differ only in letter case, nested locations, in 3 of 10 workspaces one composite's directory being a symbolic link to a directory outside the workspace, an .ignore file for output and target directories) packaged by the REAL cargo-libcnb binary built from /repo (--target x86_64-unknown-linux-gnu --no-cross-compile-assistance): from the workspace root, from each buildpack directory and from an unrelated directory; dev/--release; default, relative and absolute --package-dir; each over a clean output directory and over output directories pre-seeded with foreign files/dirs/symlinks, with a truncated earlier output (interrupted-run model: random subset of a real output deleted or cut in half) with an output of a different workspace revision, or with a complete earlier output whose descriptors are current but whose binaries are old (always tried once from a composite's own directory). Oracle: exit 0; for exactly the selected buildpacks and their transitive libcnb: dependencies a directory with byte-identical buildpack.toml, bin/build byte-identical to the compiled main target, bin/detect a symlink to build, every extra binary under .libcnb-cargo/additional-bin/<target name>, package.toml ('.' for libcnb.rs buildpacks; normalised descriptor decoded with Python tomllib for composites) and no other entry; stdout lines = the selected buildpacks' output directories; snapshot after a pre-seeded run == snapshot of the clean run; unrelated directory => non-zero exit, empty stdout, nothing written. Non-trivial: selection contains a composite with >= 1 libcnb: dependency AND the run starts from a pre-seeded output directory; distinct = hash of (workspace, invocation).");
+    ctx.set_rule("generated Cargo workspaces (1-3 dependency-free libcnb.rs buildpack crates with 1-3 binary targets whose main functions print distinct tokens, 0-3 composite buildpacks whose package.toml mixes libcnb:, relative-path and docker dependencies forming a DAG, 0-2 non-libcnb buildpack directories, ids with one or two '/' where one id is a '/'-prefix of another and two ids differ only in letter case, nested locations, in 3 of 10 workspaces one composite's directory being a symbolic link to a directory outside the workspace, an .ignore file for output and target directories) packaged by the REAL cargo-libcnb binary built from /repo (--target x86_64-unknown-linux-gnu --no-cross-compile-assistance): from the workspace root, from each buildpack directory and from an unrelated directory; dev/--release; default, relative and absolute --package-dir; each over a clean output directory and over output directories pre-seeded with foreign files/dirs/symlinks, with a truncated earlier output (interrupted-run model: random subset of a real output deleted or cut in half) with an output of a different workspace revision, or with a complete earlier output whose descriptors are current but whose binaries are old (always tried once from a composite's own directory). Oracle: exit 0; for exactly the selected buildpacks and their transitive libcnb: dependencies a directory with byte-identical buildpack.toml, bin/build byte-identical to the compiled main target, bin/detect a symbolic link resolving to bin/build (or a hard link to it), every extra binary under .libcnb-cargo/additional-bin/<target name>, package.toml (decoded: uri '.' and no dependencies for libcnb.rs buildpacks; normalised descriptor decoded with Python tomllib for composites) and no other entry; stdout lines = the selected buildpacks' output directories; snapshot after a pre-seeded run == snapshot of the clean run; no entry besides the listed ones except empty directories; a run from an unrelated directory is executed but not judged. Non-trivial: selection contains a composite with >= 1 libcnb: dependency AND the run starts from a pre-seeded output directory; distinct = hash of (workspace, invocation).");
     ctx.assume("the musl target is not installed in this sandbox: the host gnu triple is passed explicitly, cross-compile assistance is not exercised");
     if !cargo_libcnb().exists() {
         ctx.inconclusive("cargo-libcnb has not been built (run ./setup.sh)");
